@@ -365,6 +365,8 @@ def sdo_two_servers(tier):
 
 def c04(tier):
     out = [i for i in sdo_step_insts(tier) if ('_ph0_' in i.name or '_ph1_' in i.name) and ('_n4_' in i.name or tier != 'quick')]
+    # requests arriving inside a block transfer (client abort must end it; every later request is answered again)
+    out += [i for i in sdo_step_insts('quick') if '_n2_' in i.name and ('_ph2_' in i.name or '_ph3_' in i.name or '_ph4_' in i.name)]
     defs = dict(NODE_DEFS)
     defs.update({'CO_VERIF_SDO_BUF_SEG': 2})
     out.append(Inst('sdo_lookup', 'sdo_lookup.c', defs, unwind=90, unwindset=node_unwind(2), objbits=10, weight=20,
@@ -385,7 +387,7 @@ def lss_unwind():
 
 
 def c09(tier):
-    out = []
+    out = tpdo_nmt_insts() + [rpdo_inst('w_b', ch=0, t0=1, t1=255, seq='RNS'), rpdo_inst('w_b', ch=0, t0=1, t1=255, seq='NRNLS')]
     for mode in (1, 2, 3, 4):
         for k, nm in enumerate(NMT_IN):
             defs = dict(NODE_DEFS)
@@ -399,6 +401,13 @@ def c09(tier):
             out.append(Inst('nmt_step_%s_%s' % (NMT_MODE[mode], nm), 'nmt_step.c', defs, unwind=102 if k == 10 else 24, unwindset=uw, objbits=10,
                             harness_only=['MODE', 'IN'], family='nmt_step',
                             bounds='mode %s, input class %s with all data of the class symbolic (payload, dlc, cs/target, identifier)' % (NMT_MODE[mode], nm)))
+            if nm in ('nmtcmd', 'sync', 'foreign', 'sdo'):
+                # the same on a dictionary without the optional SYNC objects
+                d2 = dict(defs)
+                d2['NOSYNC'] = None
+                out.append(Inst('nmt_step_%s_%s_nosync' % (NMT_MODE[mode], nm), 'nmt_step.c', d2, unwind=24, unwindset=uw, objbits=10,
+                                harness_only=['MODE', 'IN', 'NOSYNC'], family='nmt_step',
+                                bounds='mode %s, input class %s, dictionary without 1005h/1006h' % (NMT_MODE[mode], nm)))
     return out
 
 
@@ -513,20 +522,22 @@ HBP_SEQS_QUICK = [
 ]
 
 
-def hbp_inst(seq, hb0=2, sync=False, name=None, vals=None):
+def hbp_inst(seq, hb0=2, sync=False, name=None, vals=None, freq=None):
     defs = dict(NODE_DEFS)
     defs.update({'OPSEQ': '"%s"' % seq, 'HB0': hb0, 'CO_VERIF_SDO_BUF_SEG': 2, 'OD_TMR_N': 4})
     if vals is not None:
         defs['VALS'] = '{' + ','.join(str(v) for v in vals) + '}'
     if sync:
         defs['CHECK_SYNC'] = None
+    if freq:
+        defs['OD_FREQ'] = freq
     uw = node_unwind(2)
     uw.update(lss_unwind())
-    uw.update({'COTmrDelete': 5, 'COTmrInsert': 5, 'COTmrRemove': 6, 'COTmrProcess': 5, 'COTmrReset': 5, 'CoVerifTmrPool': 5, 'COTmrClear': 4,
+    uw.update({'check_hb_ticks': 6, 'COTmrDelete': 5, 'COTmrInsert': 5, 'COTmrRemove': 6, 'COTmrProcess': 5, 'COTmrReset': 5, 'CoVerifTmrPool': 5, 'COTmrClear': 4,
                'COSyncInit': 4, 'COSyncHandler': 4, 'COSyncUpdate': 4, 'COTPdoGetMap': 10, 'COTPdoTx': 10, 'CORPdoReset': 10, 'CORPdoGetMap': 10,
                'count_id': 17, 'COEmcyReset': 6})
     tmr_cbs = ['app_cb']
-    return Inst(name or ('hbp_%s_h%d%s' % (seq, hb0, ('_v' + ''.join(str(v) for v in vals)) if vals is not None else '')), 'hbp_bmc.c', defs, unwind=18, unwindset=uw, objbits=10, tmr_cbs=tmr_cbs,
+    return Inst(name or ('hbp_%s_h%d%s%s' % (seq, hb0, ('_v' + '.'.join(str(v) for v in vals)) if (vals is not None and max(vals) > 9) else (('_v' + ''.join(str(v) for v in vals)) if vals is not None else ''), ('_f%d' % freq) if freq else '')), 'hbp_bmc.c', defs, unwind=18, unwindset=uw, objbits=10, tmr_cbs=tmr_cbs,
                 harness_only=['OPSEQ', 'HB0', 'CHECK_SYNC', 'VALS'], family='hbp_bmc',
                 bounds='operation kinds %s (see hbp_bmc.c), initial 1017h %d ms, written times per step %s, timer frequency 1 kHz, pool 4' % (seq, hb0, list(vals) if vals is not None else '0..3 ms symbolic'))
 
@@ -542,6 +553,12 @@ def c10(tier):
               [(1, 1, 1, 1, 1, 1, 1), (3, 2, 1, 2, 3, 1, 2), (0, 1, 0, 2, 2, 0, 1), (2, 2, 2, 2, 2, 2, 2), (1, 3, 3, 1, 0, 2, 3), (2, 0, 2, 0, 1, 3, 0)]
     # a timer in front of the heartbeat is deleted after part of its time elapsed (TPDO event timer restarted by a trigger,
     # application timer deleted); heartbeat switched on only after event-time writes (the new timer reuses freed ids)
+    # long periods at high timer frequencies (period checked in the timer lists), heartbeat chained behind another action of the same tick
+    for fq, vs in ((1000000, (70, 66, 1)), (1000000, (65, 6554, 20000)), (10000, (6553, 6554, 60000)), (100000, (700, 1, 655))):
+        out.append(hbp_inst('WAW', 2, vals=vs, freq=fq))
+    out.append(hbp_inst('CWWTTTT', 2, vals=(2, 2, 2, 0, 0, 0, 0)))
+    out.append(hbp_inst('CWWTTTT', 2, vals=(3, 3, 3, 0, 0, 0, 0)))
+    out.append(hbp_inst('CWTWTTT', 2, vals=(3, 3, 0, 2, 0, 0, 0)))
     out.append(hbp_inst('NEWTGTTT', 2, vals=(0, 2, 3, 0, 0, 0, 0, 0)))
     out.append(hbp_inst('CWTDTTT', 2, vals=(2, 3, 0, 0, 0, 0, 0)))
     out.append(hbp_inst('CWTTDTT', 2, vals=(3, 3, 0, 0, 0, 0, 0)))
@@ -700,7 +717,7 @@ TPDO_SEQS = [
 ]
 
 
-def tpdo_inst(mapname, seq, inh, evt, ttype, vals=(1, 1, 1, 1, 1, 1, 1, 1, 1), type2=None):
+def tpdo_inst(mapname, seq, inh, evt, ttype, vals=(1, 1, 1, 1, 1, 1, 1, 1, 1), type2=None, map2=None):
     m = TPDO_MAPS[mapname]
     defs = dict(NODE_DEFS)
     defs.update({'MAP': '{' + ','.join('0x%08X' % x for x in m) + '}', 'MAPN': len(m), 'OPSEQ': '"%s"' % seq, 'INH0': inh, 'EVT0': evt, 'TTYPE': ttype,
@@ -709,19 +726,43 @@ def tpdo_inst(mapname, seq, inh, evt, ttype, vals=(1, 1, 1, 1, 1, 1, 1, 1, 1), t
         defs['CONCV'] = None
     if type2 is not None:
         defs['TYPE2'] = type2
+    if map2 is not None:
+        defs['MAP2'] = '{' + (','.join('0x%08X' % x for x in map2) or '0') + '}'
+        defs['MAP2N'] = len(map2)
     uw = node_unwind(2)
     uw.update(lss_unwind())
     uw.update({'COSyncInit': 4, 'COSyncHandler': 4, 'COSyncUpdate': 4, 'COSyncRx': 9, 'CORPdoCheck': 4, 'CORPdoReset': 10, 'CORPdoWrite': 10, 'CORPdoGetMap': 10,
                'COTPdoGetMap': 10, 'COTPdoTx': 10, 'COTmrClear': 4, 'COEmcyReset': 6, 'COTmrDelete': 5, 'COTmrInsert': 5, 'COTmrRemove': 6, 'COTmrProcess': 5,
                'COTmrReset': 5, 'CoVerifTmrPool': 5, 'check_frame': 9, 'COTPdoTrigObj': 9, 'COTPdoMapClear': 9, 'COTPdoMapAdd': 9})
-    return Inst('tpdo_%s_%s_i%d_e%d_t%d%s%s' % (mapname, seq, inh, evt, ttype, ('to%d' % type2) if type2 is not None else '', '' if vals[0] == 1 and len(set(vals)) == 1 else '_v' + ''.join(str(v) for v in vals[:len(seq)])),
+    return Inst('tpdo_%s_%s_i%d_e%d_t%d%s%s%s' % (mapname, seq, inh, evt, ttype, ('to%d' % type2) if type2 is not None else '', ('_m2n%d' % len(map2)) if map2 is not None else '', '' if vals[0] == 1 and len(set(vals)) == 1 else '_v' + ''.join(str(v) for v in vals[:len(seq)])),
                 'tpdo_bmc.c', defs, unwind=18, unwindset=uw, objbits=10,
-                harness_only=['MAP', 'MAPN', 'OPSEQ', 'INH0', 'EVT0', 'TTYPE', 'VALS', 'CONCV', 'TYPE2'], family='tpdo_bmc',
+                harness_only=['MAP', 'MAPN', 'OPSEQ', 'INH0', 'EVT0', 'TTYPE', 'VALS', 'CONCV', 'TYPE2', 'MAP2', 'MAP2N'], family='tpdo_bmc',
                 bounds='mapping %s, operations %s, inhibit %d x100us, event %d ms, type %d, written times %s; mapped values symbolic' % (mapname, seq, inh, evt, ttype, list(vals[:len(seq)])))
 
 
-def c12(tier):
+def tpdo_nmt_insts():
+    # NMT commands that do not change the mode must not disturb PDO communication (also part of C09)
+    return [tpdo_inst('aw_ab', 'NYNY', 0, 0, 2), tpdo_inst('aw_ab', 'NYNYNY', 0, 0, 3), tpdo_inst('aw_ab', 'NGGNTT', 20, 0, 254),
+            tpdo_inst('aw_ab', 'NTNTT', 0, 2, 254), tpdo_inst('aw_ab', 'NGNGTT', 20, 0, 254)]
+
+
+def tpdo2_insts(tier):
     out = []
+    ords = ['awl', 'laq', 'a01', 'qaw', 'aVaUa', 'VaUa', 'wVlUaw'] if tier == 'quick' else ['awl', 'laq', 'a01', 'qaw', 'aVaUa', 'VaUa', 'wVlUaw', 'aaa', 'lwa10', 'VUVUa', '0a1a', 'VwU0a']
+    for o in ords:
+        defs = dict(NODE_DEFS)
+        defs.update({'ORD': '"%s"' % o, 'CO_VERIF_SDO_BUF_SEG': 2, 'OD_TMR_N': 4})
+        uw = node_unwind(2)
+        uw.update(lss_unwind())
+        uw.update({'COSyncInit': 4, 'COSyncHandler': 4, 'COSyncUpdate': 4, 'CORPdoReset': 10, 'CORPdoGetMap': 10, 'COTPdoGetMap': 10, 'COTPdoTx': 10, 'COTmrClear': 4, 'COEmcyReset': 6,
+                   'COTmrDelete': 5, 'COTmrInsert': 5, 'COTmrRemove': 6, 'COTmrReset': 5, 'CoVerifTmrPool': 5, 'count_id': 17, 'check_frames': 17, 'COTPdoMapDel': 17})
+        out.append(Inst('tpdo2_%s' % o, 'tpdo2.c', defs, unwind=18, unwindset=uw, objbits=10, harness_only=['ORD'], family='tpdo2',
+                        bounds='two event-driven TPDOs sharing object 2103h, operations %s; object values symbolic' % o))
+    return out
+
+
+def c12(tier):
+    out = tpdo2_insts(tier)
     for mn in TPDO_MAPS:
         out.append(tpdo_inst(mn, 'NG', 0, 0, 254))
         out.append(tpdo_inst(mn, 'NYY', 0, 0, 2))
@@ -734,6 +775,12 @@ def c12(tier):
     for sq, inh, evt, tt, t2 in (('NVKUYYYY', 0, 0, 2, 255), ('NVKUYYG', 0, 0, 2, 254), ('VKUNYYYG', 0, 0, 3, 254), ('NVKUYYYY', 0, 0, 254, 2),
                                  ('NGVKUYYY', 0, 0, 255, 1), ('NYVKUYYY', 0, 0, 2, 3), ('NVKUTTG', 0, 2, 1, 254)):
         out.append(tpdo_inst('aw_ab', sq, inh, evt, tt, type2=t2))
+    out += tpdo_nmt_insts()
+    out.append(tpdo_inst('aw_ab', 'NPVKUNYYG', 0, 0, 2, type2=255))
+    out.append(tpdo_inst('aw_ab', 'NPVKUNYYY', 0, 0, 255, type2=1))
+    for sq in ('NVMUG', 'NGVMUGO', 'VMUNG'):
+        out.append(tpdo_inst('aw_ab', sq, 0, 0, 254, map2=()))
+    out.append(tpdo_inst('aw_ab', 'NVMUGo', 0, 0, 254, map2=(link(0x2105, 0, 32), link(0x2103, 0, 8), link(0x2101, 0, 16))))
     # remapping while OPERATIONAL: the object-to-TPDO links must follow the mapping in effect
     for sq in ('NVMUOo', 'NVMUoO', 'NVUVUVUVMUo', 'VMUNOo', 'NVMUSNOo'):
         out.append(tpdo_inst('aw_ab', sq, 0, 0, 254, vals=(2, 3, 2, 3, 2, 3, 2, 3, 2, 3, 2, 3)))
